@@ -581,6 +581,14 @@ func (e *Engine) registerDomain() {
 		}
 		return outs
 	})
+	r("(*crypto/tls.Config).Clone", func(c *CallCtx) []Outcome {
+		p := c.args[0].(Ptr)
+		if p.IsNil() {
+			return c.ret(Ptr{})
+		}
+		src := c.st.heap.objs[p.obj].(*StructV)
+		return c.ret(Ptr{obj: c.st.newObj(&StructV{f: append([]Value(nil), src.f...)})})
+	})
 	r("(*net/http.Transport).Clone", func(c *CallCtx) []Outcome {
 		p := c.args[0].(Ptr)
 		if p.IsNil() {
